@@ -2,7 +2,7 @@
     Only statements, each closed by [exact <lemma>] and followed by
     [Print Assumptions]. *)
 From Coq Require Import List ZArith.
-From Webp Require Import Anim.Blend Anim.Canvas Anim.AnimDec Anim.AnimDecProof.
+From Webp Require Import Anim.Blend Anim.Canvas Anim.AnimDec Anim.AnimDecProof Anim.AnimDecOps.
 Open Scope Z_scope.
 
 (** For every canvas size, every frame list (any offsets in the int64 range —
@@ -15,6 +15,24 @@ Theorem C09_animdec_refines_spec : forall W H fs,
   impl_run W H fs = spec_run W H fs.
 Proof. exact animdec_refines_spec. Qed.
 Print Assumptions C09_animdec_refines_spec.
+
+(** Histories: for every interleaving of NextFrame and Reset calls, every
+    snapshot handed out is the specification's canvas for the frame index it was
+    produced for; Reset restarts the sequence identically; calls past the end
+    return no picture. *)
+Theorem C09_history_refines_spec : forall W H fs ops,
+  wf_dims W H -> Forall wf_frame fs ->
+  prun W H fs (pinit W H) ops = srun (spec_run W H fs) 0 ops.
+Proof. exact history_refines_spec. Qed.
+Print Assumptions C09_history_refines_spec.
+
+(** Treating some frames as key frames never changes a result: the decoder with
+    the key-frame shortcut equals the decoder that never uses it. *)
+Theorem C09_keyframes_never_change_result : forall W H fs,
+  wf_dims W H -> Forall wf_frame fs ->
+  impl_run W H fs = impl_go_nokey W H (dinit W H) fs.
+Proof. exact keyframes_never_change_result. Qed.
+Print Assumptions C09_keyframes_never_change_result.
 
 (** The uint32 blend arithmetic of alphaBlendNRGBA never overflows and equals
     the reference formula on all 2^64 pixel pairs. *)
